@@ -937,7 +937,15 @@ pub fn write_history(ctx: &Ctx, revisions: &[Revision], opts: &WriterOpts) -> Wr
                     ents.insert(id.0, Ent::Used((at - base) as u64, id.1));
                 }
                 Item::Plain(id, o) => {
-                    let at = e.plain_obj(*id, o);
+                    // deliberately invalid (see `misdesignate`): the header carries another object number
+                    // than the cross-reference entry that leads to it
+                    let header_id = if opts.misdesignate && e.d(6, "misnumber") == 5 {
+                        ctx.count("misnumbered-object-header");
+                        (id.0 + 1 + e.d(3000, "misnumber-by") as u32, id.1)
+                    } else {
+                        *id
+                    };
+                    let at = e.plain_obj(header_id, o);
                     ents.insert(id.0, Ent::Used((at - base) as u64, id.1));
                 }
                 Item::Container(cid, group) => {
